@@ -286,10 +286,14 @@ package parser
 // ---------------------------------------------------------------------------
 // literal decoders (C16, C04)
 
+// a JSON literal is accepted exactly when the text between the backticks (with \` unescaped) is one
+// JSON value and nothing else (C04, C16); json.* behaviour is assumed through the external contracts
+//@ axiom jsonText(key("false")) && jsonText(key("true"))
 //@ func parseJSONLiteral
 //@   tags C16 C04 C03
 //@   requires delimited: len(s) >= 2
 //@   ensures node: result1 == nil ==> result0 != nil
+//@   ensures[C04 C16] valid: result1 == nil ==> jsonText(key(strReplace(s[1:len(s) - 1], "\\`", "`", 0 - 1)))
 
 //@ func parseStringLiteral
 //@   tags C16 C04 C03
